@@ -117,7 +117,7 @@ fn templates() -> Vec<(&'static str, Tpl)> {
         ("fn-string", Tpl::Raw("MATCH (v1:L0) WHERE v1.k1 STARTS WITH $p0 OR v1.k1 CONTAINS $p0 RETURN v1.k1 AS c0".into())),
         ("list-slice", Tpl::Raw("RETURN [$p0, 2, $p1, 4][1..3] AS c0, $p0 AS c1".into())),
         ("nested-3", Tpl::Raw("RETURN [{k0: [$p0, {k1: $p1}]}] AS c0".into())),
-        ("param-map-access", Tpl::Raw("RETURN $p0.k1 AS c0, $p0.k2 AS c1".into())),
+        ("param-map-access", Tpl::Raw("RETURN ($p0).k1 AS c0, ($p0).k2 AS c1".into())),
         ("not-neg", Tpl::Model(St { cls: vec![], ret: Some(vec![Ex::Un("not", bx(bin("eq", p(0), p(1)))), Ex::Un("neg", bx(p(1)))]) })),
         ("where-and-return", Tpl::Model(St { cls: m0(vec![Cl::Filter(bin("or", bin("eq", Ex::Prop(1, 0), p(0)), bin("eq", Ex::Prop(1, 0), p(1))))]), ret: Some(vec![Ex::Prop(1, 0), p(0), Ex::List(vec![p(1)])]) })),
         ("second-return-item", Tpl::Model(St { cls: m0(vec![]), ret: Some(vec![Ex::Prop(1, 0), int(1), p(0)]) })),
@@ -335,7 +335,8 @@ fn main() {
         }
         if sv != "ok" {
             rep.count(&format!("spec_violation:{}", c.name));
-            rep.spec_violation(&known, &format!("differs:{}", c.name), &format!("`{}` with {} answered {} but the inlined `{}` answered {}", c.text_p, params_model(&c.params), c.obs_p, c.text_i, c.obs_i), &body);
+            let kind = if c.obs_i.starts_with("err@") { ":inlined-text-errors" } else { "" };
+            rep.spec_violation(&known, &format!("differs:{}{}", c.name, kind), &format!("`{}` with {} answered {} but the inlined `{}` answered {}", c.text_p, params_model(&c.params), c.obs_p, c.text_i, c.obs_i), &body);
             continue;
         }
         // model vs engine, where the model has an opinion
